@@ -44,9 +44,9 @@ EXTRA = {
                                     False),
 }
 # configurations for which "refuses <=> predicate False" is asserted
-IFF = {"bioconsert_iter_borda_copeland", "bioconsert_tuple_pick_kwik", "borda", "borda_bucket", "enum_borda", "enum_borda_bucket", "pickaperm", "enum_pickaperm", "bioco",
+IFF = {"enum_bioconsert_borda", "bioconsert_iter_borda_copeland", "bioconsert_tuple_pick_kwik", "borda", "borda_bucket", "enum_borda", "enum_borda_bucket", "pickaperm", "enum_pickaperm", "bioco",
        "enum_bioco", "bioconsert_borda_pick", "bioconsert_borda", "bioconsert_pick", "bioconsert_borda_copeland"}
-NESTED = {"bioco", "enum_bioco", "bioconsert_borda_pick", "parcons_bioco_b0", "parcons_borda_b0",
+NESTED = {"enum_bioconsert_borda", "enum_parcons_copeland_b2", "bioco", "enum_bioco", "bioconsert_borda_pick", "parcons_bioco_b0", "parcons_borda_b0",
           "bioconsert_kwik_cop_borda", "bioconsert_copeland", "bioconsert_kwik"} | set(EXTRA)
 ALL = [(c.name, e) for c in configs.CONFIGS for e in c.envs] + [(n, "absent") for n in EXTRA]
 WEIGHTED = ALL + [(n, e) for (n, e) in ALL if n in IFF or n in NESTED] * 2
